@@ -3,15 +3,16 @@ Proof: Props/Properties_C17.v over the M-REG model (Registry/RegModel.v): every 
 backend micro-steps = every interleaving; invariants by induction.
 Tie: T-src (guard, per-logger re-check, order erase -> sink clean-up -> flag store, request before invalidation,
 spinlock memory orders, registry skeletons; TieC17.v) + T-corr (extracted model vs the real
-Frontend / LoggerManager / SinkManager / ManualBackendWorker through harness/lg.cpp, ASan+UBSan build) + an
-independent property monitor on the implementation's API trace."""
+Frontend / LoggerManager / SinkManager / ManualBackendWorker through harness/lg.cpp, ASan+UBSan build; frontend calls
+injected at the yield points of a poll and inside the destructor of a sink that the backend destroys in the clean-up loop)
++ an independent property monitor on the implementation's API trace."""
 import json, os, re, sys
 from vlib import Check, standard_proof_phase, correspond, ddmin, sh, VERIF, REPO, OUT
 from props.c01 import srcfacts_values
 
 PID = 'C17'
 MANIFEST = dict(
-    text='Machine-checked (Coq) over an executable model of the logger and sink registries and of the removal protocol (LoggerManager name-sorted vector with create_or_get / get / remove_logger / cleanup_invalidated_loggers, SinkManager weak table with create_or_get_sink / cleanup_unused_sinks, the LoggerRemovalRequest of remove_logger_blocking travelling through the caller\'s queue, the backend\'s _logger_removal_flags, per-thread FIFO queues and transit buffers, sink use counts). A schedule is a list of micro-steps (frontend calls of any thread; backend: read one record, process one event, enter / one iteration / leave the clean-up loop) in any order, so every theorem quantifies over every interleaving, any number of remove/re-create cycles and every sharing pattern. Proved for the configuration read from the source: a logger is erased only when invalid and only in a state where every queue and transit buffer is empty and everything committed has been processed, and every statement committed through an erased logger was written to each sink the logger was created with (C17_erase_step_drained, C17_delivered_before_free, C17_thread_order); every queued or buffered record refers to a logger still registered and, under the documented contract "a logger is not used after its removal", no step dereferences a freed logger or writes to a destroyed sink (C17_refs_present, C17_no_dangling); a sink\'s use count equals user handles + registered loggers holding it, it is destroyed once, exactly when nothing references it (C17_sink_lifetime, C17_destroy_step); a removal flag is stored only at the end of the clean-up, after the erase and the pruning of expired sink entries, the blocked caller is released only then, and create_or_get of the freed name builds a new object over the given sinks (C17_flag_after_erase, C17_blocking_returns_after, C17_unblock_step, C17_create_after); the logger vector stays strictly name-sorted, the sink vector sorted with at most the first entry of a name alive, lookups find a name whenever present, create_or_get / get are idempotent (C17_reg_sorted_unique, C17_create_get_idem, C17_get_idem, C17_get_removed_none, C17_create_sink_idem); Spinlock in a release/acquire view model: mutual exclusion and happens-before between critical sections for every schedule (C17_spin_mutex). Each protocol ingredient has a refutation (vm_compute witness) of the variant without it: guard without transit buffers / without queues / not re-evaluated per logger, flag stored before the erase, no pruning, get without validity test, re-creation while a non-blocking removal is pending (documented misuse), relaxed spinlock orders. Tie: the guard, the per-logger re-check, the order erase -> cleanup_unused_sinks -> flag store (and that the flag is stored nowhere else), request-before-invalidation, ownership types, memory orders and 19 method skeletons are read from /repo by clang on every run (TieC17.v); the extracted model is run against the real Frontend / LoggerManager / SinkManager / ManualBackendWorker (ASan+UBSan build, frontend calls injected at the QUILL_VERIF yield points inside a poll) on generated histories, with a monitor evaluating the property directly on the implementation\'s API trace.',
+    text='Machine-checked (Coq) over an executable model of the logger and sink registries and of the removal protocol (LoggerManager name-sorted vector with create_or_get / get / remove_logger / cleanup_invalidated_loggers, SinkManager weak table with create_or_get_sink / cleanup_unused_sinks, the LoggerRemovalRequest of remove_logger_blocking travelling through the caller\'s queue, the backend\'s _logger_removal_flags, per-thread FIFO queues and transit buffers, sink use counts). A schedule is a list of micro-steps (frontend calls of any thread; backend: read one record, process one event, enter / one iteration / leave the clean-up loop) in any order, so every theorem quantifies over every interleaving, any number of remove/re-create cycles and every sharing pattern. Proved for the configuration read from the source: a logger is erased only when invalid and only in a state where every queue and transit buffer is empty and everything committed has been processed, and every statement committed through an erased logger was written to each sink the logger was created with (C17_erase_step_drained, C17_delivered_before_free, C17_thread_order); every queued or buffered record refers to a logger still registered and, under the documented contract "a logger is not used after its removal", no step dereferences a freed logger or writes to a destroyed sink (C17_refs_present, C17_no_dangling); a sink\'s use count equals user handles + registered loggers holding it, it is destroyed once, exactly when nothing references it (C17_sink_lifetime, C17_destroy_step); a removal flag is stored only at the end of the clean-up, after the erase and the pruning of expired sink entries, the blocked caller is released only then, and create_or_get of the freed name builds a new object over the given sinks (C17_flag_after_erase, C17_blocking_returns_after, C17_unblock_step, C17_create_after); the logger vector stays strictly name-sorted, the sink vector sorted with at most the first entry of a name alive, lookups find a name whenever present, create_or_get / get are idempotent (C17_reg_sorted_unique, C17_create_get_idem, C17_get_idem, C17_get_removed_none, C17_create_sink_idem); Spinlock in a release/acquire view model: mutual exclusion and happens-before between critical sections for every schedule (C17_spin_mutex). Each protocol ingredient has a refutation (vm_compute witness) of the variant without it: guard without transit buffers / without queues / not re-evaluated per logger, flag stored before the erase, no pruning, get without validity test, re-creation while a non-blocking removal is pending (documented misuse), relaxed spinlock orders. Tie: the guard, the per-logger re-check, the order erase -> cleanup_unused_sinks -> flag store (and that the flag is stored nowhere else), request-before-invalidation, ownership types, memory orders and 19 method skeletons are read from /repo by clang on every run (TieC17.v); the extracted model is run against the real Frontend / LoggerManager / SinkManager / ManualBackendWorker (ASan+UBSan build, frontend calls injected at the QUILL_VERIF yield points inside a poll) on generated histories; a further injection point needs no hook in the library: the destructor of a recording sink that the backend destroys while it erases a logger inside the loop of cleanup_invalidated_loggers makes other threads log through / remove other loggers between two iterations of that loop (the schedule that tells a per-logger emptiness re-check from one evaluated once per pass), and the generator aims at it, with a monitor evaluating the property directly on the implementation\'s API trace.',
     design='5 C17', technique='Coq invariant proofs over a micro-step transition system of the logger/sink registries and the removal protocol (+ release/acquire view model of the spinlock) + source-fact translator (clang AST) + extracted-model/implementation differential correspondence with an independent property monitor, ASan')
 TRUSTED = [
     'Coq 8.16.1 kernel (vm_compute for witnesses; no native_compute); every theorem Closed under the global context',
@@ -22,6 +23,7 @@ TRUSTED = [
 ]
 
 NTMAX = 3
+DTOR = 100      # injection key DTOR + n: inside the destructor of the sink named n, when the backend destroys it in the clean-up loop
 ARITY = {1: 3, 2: 1, 3: 3, 14: 2, 5: 3, 6: 4, 7: 2, 8: 3, 9: 2, 10: 1, 15: 1}   # 4 and 11 have a length field
 
 
@@ -219,7 +221,8 @@ def monitor(case, impl_line):
             else:
                 # the name is being removed (not known complete): outside the contract, nothing is claimed
                 if u not in L:
-                    maxl = max(maxl, u); L[u] = dict(name=name, sinks=[hnd[h] for h in hs if h in hnd], state='valid'); cur[name] = u; committed[u] = []
+                    maxl = max(maxl, u); L[u] = dict(name=name, sinks=[hnd[h] for h in hs if h in hnd], state='valid', limbo=True); cur[name] = u; committed[u] = []
+                if c is not None: L[c]['limbo'] = True
             var[v] = u
         elif k == 5:
             _, v, name, u = e
@@ -295,6 +298,14 @@ def monitor(case, impl_line):
             nvalid = sum(1 for d in L.values() if d['state'] == 'valid')
             nmax = sum(1 for d in L.values() if d['state'] != 'gone')
             if not (nvalid <= e[1] <= nmax): return 'get_number_of_loggers = %d, outside [%d valid, %d not known removed]' % (e[1], nvalid, nmax)
+            # a removed logger some of whose statements are not written yet is still registered
+            pend = [u for u, d in L.items() if d['state'] in ('removed', 'blocking') and not d.get('limbo')
+                    and any(sorted(written.get((S, u), [])) != owed(L, committed, u, S) for S in d['sinks'])]
+            if e[1] < nvalid + len(pend):
+                u = pend[0]
+                return ('get_number_of_loggers = %d with %d valid loggers and removed logger(s) %s whose statements are not all written '
+                        '(logger %d: %s logged, sinks have %s): a logger was erased while a statement logged through it before its removal was still queued'
+                        % (e[1], nvalid, pend, u, [m for _, m in committed[u]], [written.get((S, u), []) for S in L[u]['sinks']]))
         elif k == 11:
             exp = [u for _, u in sorted((d['name'], u) for u, d in L.items() if d['state'] == 'valid')]
             if list(e[1]) != exp: return 'get_all_loggers = %s, expected the valid loggers in name order %s' % (list(e[1]), exp)
@@ -378,8 +389,9 @@ class Gen:
         if x < 0.30:
             inj = []
             if r.random() < 0.35:
-                order = [1, 30, 31, 32, 5, 6, 8]          # the order in which the yield points fire inside a poll
-                keys = sorted((r.choice([1, 5, 6, 8, 8, 30, 31, 32]) for _ in range(r.randint(1, 2))), key=order.index)
+                # the order in which the points fire inside a poll: yield points, then the sink destructors of the clean-up loop
+                order = [1, 30, 31, 32, 5, 6, 8] + [DTOR + n for n in range(self.ns)]
+                keys = sorted((r.choice([1, 5, 6, 8, 8, 30, 31, 32] + [DTOR + r.randrange(self.ns)] * 3) for _ in range(r.randint(1, 2))), key=order.index)
                 for key in keys:
                     ops = [o for o in (self.simple(allow_rb=False) for _ in range(r.randint(1, 2))) if o]
                     if ops: inj.append((key, ops))
@@ -403,6 +415,70 @@ class Gen:
 def gen_random(rng):
     g = Gen(rng)
     return (g.nt, g.run(rng.randint(8, 70)))
+
+
+def gen_dtor(rng):
+    """the window inside a clean-up pass: logger A (own sink) is removed and drained; the poll that erases it destroys A's
+    sink, whose destructor makes another thread log through a still valid logger B and remove B; then more polls.
+    Variations: name order of A and B, sharing, handles kept, not fully drained, what the destructor does, a third logger,
+    blocking removals."""
+    r = rng
+    nt = r.choice([2, 2, 3])
+    ln = r.sample(range(4), 3)                      # logger names = variables; A, B, C
+    if r.random() < 0.7 and ln[0] > ln[1]: ln[0], ln[1] = ln[1], ln[0]     # mostly A before B in the registry
+    A, B, C = ln
+    withC = r.random() < 0.4
+    msg = [100]
+    def m():
+        msg[0] += 1; return msg[0]
+    b = [('sink', 0, 0), ('sink', 1, 1)]
+    x = r.random()
+    sa = (0,) if x < 0.8 else ((1, 0) if x < 0.9 else (0, 1))             # A's sinks: its own one, mostly alone and last
+    y = r.random()
+    sb = (1,) if y < 0.8 else ((0,) if y < 0.9 else (1, 0))
+    cr = [('create', A, A, sa), ('create', B, B, sb)] + ([('create', C, C, r.choice([(0,), (1,), (0, 1), ()]))] if withC else [])
+    r.shuffle(cr); b += cr
+    for h in (0, 1):
+        if r.random() < 0.85: b.append(('drop', h))
+    lgs = [A, B] + ([C] if withC else [])
+    logs = [('log', r.randrange(nt), r.choice(lgs), m()) for _ in range(r.randint(0, 4))]
+    early = r.random() < 0.3
+    rbA = r.random() < 0.2
+    tA = r.randrange(nt)
+    rmA = ('rb', tA, A) if rbA else ('remove', A)
+    b += logs
+    ncommit = len(logs) + (1 if rbA else 0)
+    drain = [('poll', [])] * max(0, ncommit + r.choice([0, 0, 0, 0, 1, -1]))
+    # A removed right after its last statement, or after the backend has written everything
+    b += ([rmA] + drain) if early else (drain[:len(logs)] + [rmA] + drain[len(logs):])
+    others = [t for t in range(nt) if not (rbA and t == tA)] or [0]
+    tB = r.choice(others)
+    z = r.random()
+    if z < 0.55: ops = [('log', tB, B, m()), ('remove', B)]
+    elif z < 0.65: ops = [('log', tB, B, m()), ('log', r.choice(others), B, m()), ('remove', B)]
+    elif z < 0.75: ops = [('log', tB, B, m()), ('rb', tB, B)]
+    elif z < 0.85: ops = [('log', tB, B, m())]
+    elif z < 0.92: ops = [('remove', B)]
+    else: ops = [('sink', 2, 0), ('log', tB, B, m()), ('drop', 1), ('remove', B), ('count',)]
+    if withC and r.random() < 0.3: ops.insert(r.randrange(len(ops) + 1), ('log', r.choice(others), C, m()))
+    inj = [(DTOR + sa[-1], ops)]
+    first = ([(r.choice([1, 6, 8]), [('log', r.choice(others), C if withC else B, m())])] if r.random() < 0.15 else []) + inj
+    # the destructor injection is armed in 1-3 polls in a row (it fires at most once: the sink dies once)
+    b += [('poll', first)] + [('poll', inj)] * r.choice([0, 0, 1, 2])
+    Bgone = any(o[0] in ('remove', 'rb') for o in ops)
+    tail = []
+    for _ in range(r.randint(0, 4)):
+        w = r.random()
+        if w < 0.6: tail.append(('poll', []))
+        elif w < 0.75 and withC: tail.append(('log', r.choice(others), C, m()))
+        elif w < 0.85: tail.append(('wait', r.randrange(nt)))
+        else: tail.append(r.choice([('count',), ('list',)]))
+    b += tail
+    if withC and r.random() < 0.4:
+        b += [('rb', r.choice(others), C)] + [('poll', [])] * r.randint(0, 3)
+    elif not Bgone and r.random() < 0.5:
+        b += [('rb', r.choice(others), B)] + [('poll', [])] * r.randint(0, 3)
+    return (nt, b)
 
 
 def gen_scenarios(rng):
@@ -459,6 +535,26 @@ def gen_scenarios(rng):
         b = [('sink', 0, 0)] + [('create', n, n, (0,)) for n in perm] + [('list',), ('count',)] + [('create', n, n, ()) for n in perm] + \
             [('get', n, n) for n in perm] + [('get', 3, 3), ('list',)]
         out.append((1, b))
+    # inside a clean-up pass: the poll that erases A destroys A's own sink; from that destructor another thread logs
+    # through B (still valid) and removes B. B is looked at later in the same pass when it sorts after A. With and
+    # without the final drain (without: the trace stops right after the pass)
+    for (A, B) in ((0, 1), (1, 0)):
+        for v in range(5):
+            for drained in (False, True):
+                ops = [[('log', 1, B, 102), ('remove', B)], [('log', 1, B, 102), ('log', 0, B, 103), ('remove', B)], [('log', 1, B, 102), ('rb', 1, B)],
+                       [('log', 1, B, 102)], [('remove', B)]][v]
+                b = [('sink', 0, 0), ('sink', 1, 1), ('create', A, A, (0,)), ('create', B, B, (1,)), ('drop', 0), ('drop', 1),
+                     ('log', 0, A, 100), ('log', 1, B, 101), ('poll', []), ('poll', []), ('remove', A), ('poll', [(DTOR + 0, ops)])]
+                if drained: b += [('poll', []), ('poll', [])]
+                out.append((2, b, drained))
+    # the same with B sharing its sink with a third, valid logger (no sink dies with B), and with A removed by remove_logger_blocking
+    b = [('sink', 0, 0), ('sink', 1, 1), ('create', 0, 0, (0,)), ('create', 1, 1, (1,)), ('create', 2, 2, (1,)), ('drop', 0), ('drop', 1),
+         ('log', 0, 0, 100), ('log', 1, 1, 101), ('log', 1, 2, 102), ('poll', []), ('poll', []), ('poll', []), ('remove', 0),
+         ('poll', [(DTOR + 0, [('log', 1, 1, 103), ('remove', 1)])])]
+    out.append((2, b, False)); out.append((2, b + [('poll', [])], True))
+    b = [('sink', 0, 0), ('sink', 1, 1), ('create', 0, 0, (0,)), ('create', 1, 1, (1,)), ('drop', 0), ('drop', 1),
+         ('log', 0, 0, 100), ('poll', []), ('rb', 0, 0), ('poll', []), ('poll', [(DTOR + 0, [('log', 1, 1, 101), ('remove', 1)])]), ('wait', 0)]
+    out.append((2, b, False)); out.append((2, b + [('poll', [])], True))
     # two blocking removals in flight from two threads
     b = [('sink', 0, 0), ('create', 0, 0, (0,)), ('create', 1, 1, (0,)), ('log', 0, 0, 1), ('log', 1, 1, 2), ('rb', 0, 0), ('rb', 1, 1),
          ('log', 0, 1, 3), ('poll', []), ('wait', 0), ('poll', []), ('poll', []), ('wait', 1), ('poll', []), ('poll', []), ('wait', 0), ('wait', 1)]
@@ -524,7 +620,8 @@ def known_match_for(ck):
 
 
 def coverage(cases, impl):
-    h = {}; b = dict(loggers_freed=0, blocking_returned=0, sinks_destroyed=0, names_recreated=0, cases_with_injection=0, shared_sink_cases=0, writes=0)
+    h = {}; b = dict(loggers_freed=0, blocking_returned=0, sinks_destroyed=0, names_recreated=0, cases_with_injection=0, cases_with_sink_destructor_injection=0,
+                 sink_destructor_injections_fired=0, shared_sink_cases=0, writes=0)
     for c, i in zip(cases, impl):
         try:
             _, _, ops = parse(c); ev = events(i)
@@ -539,6 +636,10 @@ def coverage(cases, impl):
                 for x in o[2]: cnt(x)
         for o in ops: cnt(o)
         if any(o[0] == 'poll' and o[1] for o in ops): b['cases_with_injection'] += 1
+        if any(o[0] == 'poll' and any(k >= DTOR for k, _ in o[1]) for o in ops): b['cases_with_sink_destructor_injection'] += 1
+        # a sink destroyed by the backend (not by a handle reset: 14 h 1 just before) followed by a frontend call before the poll ends
+        b['sink_destructor_injections_fired'] += sum(1 for j in range(1, len(ev) - 1) if ev[j][0] == 2 and not (ev[j - 1][0] == 14 and ev[j - 1][2] == 1)
+                                                     and ev[j + 1][0] in (3, 14, 6, 7, 8, 9))
         counts = [e[1] for e in ev if e[0] == 10]
         b['loggers_freed'] += sum(max(0, x - y) for x, y in zip(counts, counts[1:]))
         b['blocking_returned'] += sum(1 for e in ev if e[0] == 9 and e[2] == 1)
@@ -593,8 +694,8 @@ def run(tier):
         ck.violation('no-failing-input-found', 'harness lg.cpp does not compile against /repo: ' + err[-600:]); return ck.finish(trusted=TRUSTED)
     fl = flags_from(facts)
     n = 2500 if tier == 'quick' else 60000
-    first = [with_flags(c, fl) for c in corpus()] + [line(fl, nt, b) for nt, b in gen_scenarios(ck.rng)]
-    cases = first + [line(fl, *gen_random(ck.rng)) for _ in range(n)]
+    first = [with_flags(c, fl) for c in corpus()] + [line(fl, *sc) for sc in gen_scenarios(ck.rng)]
+    cases = first + [line(fl, *(gen_dtor(ck.rng) if k % 6 == 5 else gen_random(ck.rng))) for k in range(n)]
     il = ck.run_impl(iexe, first, per_case_timeout=20)
     nfail = sum(1 for l in il if l.startswith(('CRASH', 'HANG', 'NOOUTPUT')))
     if nfail >= 5:
@@ -640,7 +741,7 @@ def run(tier):
     nt_ = len(set(c for c in cases if nontrivial(c, res[c]))) if not monf else 0
     hist, bnd = coverage(cases, il)
     return ck.finish(trusted=TRUSTED, samples=[cases[0][:400], cases[len(first) + 1][:400] if len(cases) > len(first) + 1 else cases[-1][:400]],
-                     rule='histories of create_or_get_sink / handle reset / create_or_get_logger / get_logger / log (1-3 threads) / remove_logger / remove_logger_blocking / wait / counts / poll_one with frontend calls injected at yield points 1, 3.k, 5, 6, 8 on the real Frontend + ManualBackendWorker; structured scenarios (remove right after the last log, older statements of another thread still queued, 1-20 remove/re-create cycles with alternating sinks, every sharing pattern of 3 sinks over 3 loggers, a statement committed inside the poll that would free the logger, handle dropped before/after, expired entries, idempotence in every insertion order, two blocking removals in flight) plus seeded random in-contract histories; every case ends with a drain; non-trivial = a logger object was freed after statements were written and a removal was requested; distinct by case text',
+                     rule='histories of create_or_get_sink / handle reset / create_or_get_logger / get_logger / log (1-3 threads) / remove_logger / remove_logger_blocking / wait / counts / poll_one with frontend calls injected at yield points 1, 3.k, 5, 6, 8 and inside the destructor of a sink destroyed by the clean-up loop, on the real Frontend + ManualBackendWorker; structured scenarios (inside a clean-up pass: the destructor of the erased logger\'s sink makes another thread log through / remove a second logger, in both registry orders, with and without the final drain, shared sink, blocking removal; remove right after the last log, older statements of another thread still queued, 1-20 remove/re-create cycles with alternating sinks, every sharing pattern of 3 sinks over 3 loggers, a statement committed inside the poll that would free the logger, handle dropped before/after, expired entries, idempotence in every insertion order, two blocking removals in flight) plus seeded random in-contract histories (5 of 6) and randomised variations of the clean-up-pass window (1 of 6); every case ends with a drain; non-trivial = a logger object was freed after statements were written and a removal was requested; distinct by case text',
                      evaluations=len(cases), distinct_nontrivial=nt_, traces=len(cases) - len(dis) - len(monf),
                      extra_cov={'disagreements': len(dis), 'monitor_failures': len(monf), 'corpus_cases': len(corpus()), 'scenario_cases': len(first) - len(corpus()),
                                 'op_histogram': hist, 'boundaries_hit': bnd, 'model_variant_flags(guard_q,guard_tb,recheck,flag_late,prune,get_valid)': list(fl),
@@ -675,7 +776,7 @@ def dev(n, seed=1):
     mexe, err = ck.build_modelrun(); assert mexe, err
     iexe, err = ck.build_harness('lg', ['lg.cpp'], flags=['-DNDEBUG', '-ldl']); assert iexe, err
     fl = [1] * 6
-    cases = [line(fl, nt, b) for nt, b in gen_scenarios(ck.rng)] + [line(fl, *gen_random(ck.rng)) for _ in range(n)]
+    cases = [line(fl, *sc) for sc in gen_scenarios(ck.rng)] + [line(fl, *(gen_dtor(ck.rng) if k % 6 == 5 else gen_random(ck.rng))) for k in range(n)]
     ml = ck.run_model(mexe, cases); il = ck.run_impl(iexe, cases)
     bad = 0
     for c, m, i in zip(cases, ml, il):
